@@ -1,6 +1,393 @@
 import Driver.Util
-open Lean
+import DoitModel.Model.Run
+import DoitModel.Model.RunMon
+open Lean DoitModel.Run
 namespace Driver.Run
-/-- handler for requests with `"model": "run"` (stub: filled in when the model exists) -/
-def handle (_ : Json) : Json := Driver.err "model not implemented"
+/-! Handler for `{"model":"run", "op":"accept"|"simulate", …}` (protocol: harness/runlib.py docstring).
+
+`accept`: is the observed trace (+ exit code) a trace of the model under SOME choice sequence?  The search is a
+deterministic simulation guided by the observed events (a step that emits events must emit exactly the next
+observed ones; silent steps of the main thread and `JobHold`/`None` pick-ups commute with everything else and are
+taken eagerly) with backtracking over the two unordered points only: iteration order of `waiting_me` and of
+`calc_dep`.  For the process runner main-thread events and worker events are matched as two streams (their relative
+order in the file is a race between processes).  Also evaluates the C01/C02 monitors on the observed trace.
+
+`simulate`: run the model under a default schedule and return its trace (used by examples and debugging). -/
+
+def listFn {α} [Inhabited α] (xs : List α) : Nat → α := fun n => xs.getD n default
+def arrOfArr (j : Json) (k : String) : List (List Nat) := (jarr j k).map fun x => (asArr x).map asNat
+
+def parseSt3 (s : String) : St3 := match s with | "utd" => .utd | "error" => .error | _ => .run
+def parseOutcome (s : String) : Outcome :=
+  match s with | "failed" => .failed | "error" => .error | "saveerr" => .saveErr | _ => .ok
+def parseCalcRes (j : Json) : CalcRes :=
+  match j with
+  | .null => {}
+  | _ => { tasks := jnats j "task", files := jnats j "file", calcs := jnats j "calc" }
+
+
+def boolsOf (j : Json) (k : String) (dflt : Bool) : Nat → Bool :=
+  let xs := (jarr j k).map fun x => (x.getBool?).toOption.getD dflt
+  fun n => xs.getD n dflt
+
+def parseInput (j : Json) : RunInput :=
+  let runner := match jstr j "runner" with | "thread" => RunnerKind.thread | "process" => .process | _ => .serial
+  { taskDep := fun n => (arrOfArr j "taskDep").getD n []
+    calcDep := fun n => (arrOfArr j "calcDep").getD n []
+    setup := fun n => (arrOfArr j "setup").getD n []
+    sel := jnats j "sel"
+    continue_ := jbool j "cont"
+    always := jbool j "always"
+    runner := runner
+    numProc := jnat j "nproc"
+    ignored := boolsOf j "ignored" false
+    statusOf := listFn ((jstrs j "status").map parseSt3)
+    outcome := listFn ((jstrs j "outcome").map parseOutcome)
+    argsOk := boolsOf j "argsOk" true
+    calcRes := listFn ((jarr j "calcRes").map parseCalcRes)
+    hasTeardown := boolsOf j "teardown" false
+    noAct := boolsOf j "noAct" false }
+
+def failKindStr : FailKind → String
+  | .unmet => "unmet" | .depErr => "deperr" | .failed => "failed" | .error => "error"
+def parseFailKind (s : String) : FailKind :=
+  match s with | "unmet" => .unmet | "deperr" => .depErr | "failed" => .failed | _ => .error
+
+def evJson : Ev → Json
+  | .getStatus n => mkArr [Json.str "get_status", toJson n]
+  | .skipIgn n => mkArr [Json.str "skip_ignore", toJson n]
+  | .skipUtd n => mkArr [Json.str "skip_uptodate", toJson n]
+  | .execute n => mkArr [Json.str "execute", toJson n]
+  | .success n => mkArr [Json.str "success", toJson n]
+  | .failure n k => mkArr [Json.str "failure", toJson n, Json.str (failKindStr k)]
+  | .teardown n => mkArr [Json.str "teardown", toJson n]
+  | .complete => mkArr [Json.str "complete"]
+  | .start n w => mkArr [Json.str "start", toJson n, toJson w]
+  | .fin n w => mkArr [Json.str "end", toJson n, toJson w]
+  | .go n ds => mkArr [Json.str "go", toJson n, ofNats ds]
+
+def parseEv (j : Json) : Option Ev :=
+  match asArr j with
+  | [t] => if asStr t = "complete" then some .complete else none
+  | [t, n] =>
+    match asStr t with
+    | "get_status" => some (.getStatus (asNat n))
+    | "skip_ignore" => some (.skipIgn (asNat n))
+    | "skip_uptodate" => some (.skipUtd (asNat n))
+    | "execute" => some (.execute (asNat n))
+    | "success" => some (.success (asNat n))
+    | "teardown" => some (.teardown (asNat n))
+    | _ => none
+  | [t, n, x] =>
+    match asStr t with
+    | "failure" => some (.failure (asNat n) (parseFailKind (asStr x)))
+    | "start" => some (.start (asNat n) (asNat x))
+    | "end" => some (.fin (asNat n) (asNat x))
+    | _ => none
+  | _ => none
+
+/-! ### the acceptor -/
+
+def isWorkerEv : Ev → Bool
+  | .start _ _ => true | .fin _ _ => true | _ => false
+
+/-- remaining observed events: single stream (`.1`, `.2 = []`) or main / worker streams -/
+abbrev Rem := List Ev × List (List Ev)
+
+def workerOf : Ev → Nat
+  | .start _ w => w | .fin _ w => w | _ => 0
+
+def popAt : List (List Ev) → Nat → Ev → Option (List (List Ev))
+  | [], _, _ => none
+  | l :: ls, 0, e => match l with
+    | o :: l' => if o = e then some (l' :: ls) else none
+    | [] => none
+  | l :: ls, k + 1, e => (popAt ls k e).map (l :: ·)
+
+/-- consume the events a step emitted (oldest first); `dual`: the events of worker `w` come from stream `w` -/
+def consume (inp : RunInput) (dual : Bool) : Rem → List Ev → Option Rem
+  | r, [] => some r
+  | (m, w), e :: es =>
+    if hidden inp e then consume inp dual (m, w) es
+    else if dual && isWorkerEv e then
+      match popAt w (workerOf e) e with
+      | some w' => consume inp dual (m, w') es
+      | none => none
+    else
+      match m with
+      | o :: m' => if o = e then consume inp dual (m', w) es else none
+      | [] => none
+
+partial def permsOf : List Nat → List (List Nat)
+  | [] => [[]]
+  | xs => xs.flatMap fun x => (permsOf (xs.erase x)).map (x :: ·)
+
+/-- position of the first remaining observed event that names task `x` (large when none does) -/
+def firstMention (obs : List Ev) (x : Nat) : Nat :=
+  match obs.findIdx? (Ev.mentions x) with
+  | some i => i
+  | none => 1000000 + x
+
+/-- insertion sort by first mention in the observed events still to be matched -/
+def sortByMention (obs : List Ev) (xs : List Nat) : List Nat :=
+  xs.foldl (fun acc x =>
+    let k := firstMention obs x
+    (acc.takeWhile fun y => firstMention obs y ≤ k) ++ x :: (acc.dropWhile fun y => firstMention obs y ≤ k)) []
+
+/-- orders to try for a set that the main thread's next step iterates: first the order suggested by the observed
+    trace, then (small sets) every order.  Second component: the enumeration was cut short. -/
+def ordersOf (obs : List Ev) (xs : List Nat) : List (List Nat) × Bool :=
+  let h := sortByMention obs xs
+  if xs.length ≤ 1 then ([xs], false)
+  else if xs.length > 6 then ([h, xs, xs.reverse], true)
+  else (h :: (permsOf xs).filter (· ≠ h), false)
+
+def permCandidates (s : Sys) (obs : List Ev) : List (List Nat) × Bool :=
+  let wake (p : Option Nat) : List (List Nat) × Bool :=
+    match p with
+    | none => ([[]], false)
+    | some p =>
+      match s.nodes p with
+      | some nd => if nd.status = .run then ([[]], false) else ordersOf obs nd.waitingMe
+      | none => ([[]], false)
+  match s.rpc with
+  | .sTop p => wake p
+  | .gLoop p _ => wake p
+  | .sWait | .gWait _ =>
+    match s.susp, s.cur with
+    | none, some n =>
+      match s.nodes n with
+      | some nd => if nd.pc = .loopTop then ordersOf obs nd.pendCalc else ([[]], false)
+      | none => ([[]], false)
+    | _, _ => ([[]], false)
+  | _ => ([[]], false)
+
+/-- events emitted by a step, oldest first -/
+def emitted (s s' : Sys) : List Ev := (s'.events.take (s'.events.length - s.events.length)).reverse
+
+structure Best where
+  matched : Nat := 0
+  expected : List (List Ev) := []
+  steps : Nat := 0
+  perms : Nat := 0
+  capped : Bool := false
+deriving Inhabited
+
+def remLen (r : Rem) : Nat := r.1.length + (r.2.map List.length).sum
+
+def lowestIdle (s : Sys) : Nat → Option Nat
+  | 0 => none
+  | k + 1 => match lowestIdle s k with
+    | some w => some w
+    | none => if s.workers k = .idle then some k else none
+
+def runningNoAct (inp : RunInput) (s : Sys) : Nat → Option Nat
+  | 0 => none
+  | k + 1 => match runningNoAct inp s k with
+    | some w => some w
+    | none => match s.workers k with
+      | .running n => if inp.noAct n then some k else none
+      | _ => none
+
+/-- the worker moves that would emit a next observed worker event (single stream: at most one) -/
+def nextWorkerMoves (dual : Bool) (r : Rem) : List Choice :=
+  let look (es : List Ev) : List Choice :=
+    match es with
+    | .start _ w :: _ => [.take w]
+    | .execute _ :: .start _ w :: _ => [.take w]
+    | .fin _ w :: _ => [.done w]
+    | _ => []
+  if dual then r.2.flatMap look else look r.1
+
+inductive Verdict | accepted | rejected | budget
+deriving DecidableEq, Inhabited
+
+/-- depth-first search; `total` = number of observed events (for the `matched` diagnostic) -/
+partial def search (inp : RunInput) (dual : Bool) (total : Nat) (wantExit : Nat) (wantDeadlock : Bool)
+    (s : Sys) (r : Rem) (b : Best) : Verdict × Best := Id.run do
+  let mut b := { b with steps := b.steps + 1 }
+  if b.steps > 400000 then return (.budget, b)
+  let stepF := stepOf inp
+  -- 1. the main thread
+  let (cands, cap) := permCandidates s (r.1 ++ r.2.flatten)
+  if cands.length > 1 then b := { b with perms := b.perms + 1 }
+  if cap then b := { b with capped := true }
+  let mut mainBlocked := true
+  let mut mainExpected : List (List Ev) := []
+  for perm in cands do
+    match stepF s (.main perm) with
+    | none => pure ()
+    | some s' =>
+      let em := emitted s s'
+      match consume inp dual r em with
+      | some r' =>
+        mainBlocked := false
+        let (v, b') := search inp dual total wantExit wantDeadlock s' r' b
+        b := b'
+        if v ≠ .rejected then return (v, b)
+      | none =>
+        mainExpected := (em.filter fun e => !hidden inp e) :: mainExpected
+  if !mainBlocked then return (.rejected, b)     -- main could move (all orders tried) and none led to acceptance
+  -- 2. silent worker moves
+  if inp.runner ≠ .serial then
+    -- JobHold / None pick-ups commute with everything: taken eagerly by the lowest idle worker
+    let eager : Bool := match s.jobQ with
+      | .hold :: _ | .stop :: _ => true
+      | _ => false
+    if eager then
+      match lowestIdle s s.nStarted with
+      | some w =>
+        match stepF s (.take w) with
+        | some s' =>
+          match consume inp dual r (emitted s s') with
+          | some r' => return search inp dual total wantExit wantDeadlock s' r' b
+          | none => pure ()
+        | none => pure ()
+      | none => pure ()
+    -- a task without actions occupies a worker, and its result races with the other workers' results: every idle
+    -- worker may pick it up, and it may finish at any later point (both are backtracking choices)
+    let mut movedSilent := false
+    match s.jobQ with
+    | .task n :: _ =>
+      if inp.noAct n then
+        for w in List.range s.nStarted do
+          match stepF s (.take w) with
+          | some s' =>
+            match consume inp dual r (emitted s s') with
+            | some r' =>
+              movedSilent := true
+              let (v, b') := search inp dual total wantExit wantDeadlock s' r' b
+              b := b'
+              if v ≠ .rejected then return (v, b)
+            | none => pure ()
+          | none => pure ()
+    | _ => pure ()
+    for w in List.range s.nStarted do
+      match s.workers w with
+      | .running n =>
+        if inp.noAct n then
+          match stepF s (.done w) with
+          | some s' =>
+            match consume inp dual r (emitted s s') with
+            | some r' =>
+              movedSilent := true
+              let (v, b') := search inp dual total wantExit wantDeadlock s' r' b
+              b := b'
+              if v ≠ .rejected then return (v, b)
+            | none => pure ()
+          | none => pure ()
+      | _ => pure ()
+    let _ := movedSilent
+    -- 3. a worker move demanded by a next observed worker event (process runner: one candidate per worker)
+    let mut moved := false
+    for c in nextWorkerMoves dual r do
+      match stepF s c with
+      | some s' =>
+        match consume inp dual r (emitted s s') with
+        | some r' =>
+          moved := true
+          let (v, b') := search inp dual total wantExit wantDeadlock s' r' b
+          b := b'
+          if v ≠ .rejected then return (v, b)
+        | none => pure ()
+      | none => pure ()
+    if moved then return (.rejected, b)
+  -- 4. stuck: final verdict
+  let m := total - remLen r
+  if m ≥ b.matched then b := { b with matched := m, expected := mainExpected }
+  if remLen r = 0 then
+    if s.rpc = .halted then
+      return (if exitCode s = wantExit && !wantDeadlock then .accepted else .rejected, b)
+    else
+      return (if wantDeadlock then .accepted else .rejected, b)
+  return (.rejected, b)
+
+/-- default schedule for `simulate`: main first, then lowest worker; stored set orders -/
+partial def simulate (inp : RunInput) (s : Sys) (fuel : Nat) : Sys :=
+  if fuel = 0 then s else
+  let stepF := stepOf inp
+  match (permCandidates s []).1.head? with
+  | some perm =>
+    match stepF s (.main perm) with
+    | some s' => simulate inp s' (fuel - 1)
+    | none =>
+      let rec tryW (k : Nat) : Option Sys :=
+        match k with
+        | 0 => none
+        | k + 1 => match stepF s (.take k) with
+          | some s' => some s'
+          | none => match stepF s (.done k) with
+            | some s' => some s'
+            | none => tryW k
+      match tryW s.nStarted with
+      | some s' => simulate inp s' (fuel - 1)
+      | none => s
+  | none => s
+
+/-! ### hypotheses of the theorems, evaluated on the case -/
+
+/-- every dependency of every kind (static and deliverable) points to a task with a smaller rank given by `rank` -/
+def allStaticDeps (inp : RunInput) (t : Nat) : List Nat :=
+  inp.taskDep t ++ inp.calcDep t ++ inp.setup t ++ (inp.calcRes t).calcs
+
+partial def reachesSelf (inp : RunInput) (n : Nat) (t : Nat) : Bool := Id.run do
+  -- DFS over static + deliverable edges
+  let succ (x : Nat) : List Nat :=
+    inp.taskDep x ++ inp.calcDep x ++ inp.setup x ++
+      ((inp.calcDep x).flatMap fun c => (inp.calcRes c).tasks ++ (inp.calcRes c).files ++ (inp.calcRes c).calcs)
+  let mut seen : List Nat := []
+  let mut todo := succ t
+  let mut fuel := n * n + 10
+  while fuel > 0 && !todo.isEmpty do
+    fuel := fuel - 1
+    match todo with
+    | [] => pure ()
+    | x :: rest =>
+      todo := rest
+      if x = t then return true
+      if x ∉ seen then
+        seen := x :: seen
+        todo := succ x ++ todo
+  return false
+
+def handle (j : Json) : Json :=
+  let inp := parseInput j
+  let n := jnat j "n"
+  match jstr j "op" with
+  | "simulate" =>
+    let s := simulate inp (init inp) 100000
+    Json.mkObj [("trace", mkArr ((trace inp s).map evJson)), ("exit", toJson (exitCode s)),
+                ("halted", Json.bool (s.rpc = .halted))]
+  | _ =>
+    match (jarr j "trace").mapM parseEv with
+    | none => Driver.err "bad event in trace"
+    | some tr =>
+      let exit := jnat j "exit"
+      let errS := (j.getObjValAs? String "err").toOption.getD ""
+      let dual := inp.runner = .process
+      let r : Rem := if dual then
+          (tr.filter (fun e => !isWorkerEv e),
+           (List.range (inp.numProc + 1)).map fun w => tr.filter fun e => isWorkerEv e && workerOf e == w)
+        else (tr, [])
+      let (v, b) := search inp dual tr.length exit (errS = "deadlock") (init inp) r {}
+      let acyclic := (List.range n).all fun t => !reachesSelf inp n t
+      let m1 := monC01Order inp n tr
+      let m2 := monC01NoOverlap inp n tr
+      let m3 := monC02AtMostOnce n tr
+      let m4 := monC02InsideClosure inp n tr
+      let m5 := monC02AllProcessed inp n tr exit
+      Json.mkObj [
+        ("accepted", Json.bool (v = .accepted)),
+        ("skipped", Json.bool (v = .budget || (v = .rejected && b.capped))),
+        ("matched", toJson b.matched),
+        ("expected", mkArr (b.expected.map fun es => mkArr (es.map evJson))),
+        ("steps", toJson b.steps),
+        ("permPoints", toJson b.perms),
+        ("monitor", Json.mkObj [("C01_order", Json.bool m1), ("C01_no_overlap", Json.bool m2),
+          ("C02_at_most_once", Json.bool m3), ("C02_inside_closure", Json.bool m4),
+          ("C02_all_processed", Json.bool m5)]),
+        ("hyp", Json.mkObj [("acyclic", Json.bool acyclic)]),
+        ("closure", ofNats (closureOf inp n tr)),
+        ("complete", Json.bool (runComplete inp tr exit))]
+
 end Driver.Run
